@@ -134,6 +134,10 @@ def private_scenarios(rng, n, two=True):
         evs.append({"op": "parse", "T": T})
         for a in ("eD", "iD", "ionD", "iion", "e0"):
             evs.append({"op": "pickle", "T": T, "a": a})
+        how = ["after-refused-duplicate", "orphans", "bare"][i % 3]
+        evs.append({"op": "pickle", "T": T if how != "after-refused-duplicate" else rng.choice(tabs + ["pub"]), "a": "iion", "how": how})
+        if how == "after-refused-duplicate":
+            evs.append({"op": "pickle", "T": T, "a": "ionD"})
         if rng.random() < 0.7:
             g = rng.choice(["cryst", "mag", "act", "neut", "xray"])
             a, p = reps[g]
